@@ -79,6 +79,17 @@ Theorem gated_run_is_section_run : forall ansi w ops st gs f, leakfree ansi gs o
 Proof. exact grun_erase. Qed.
 Print Assumptions gated_run_is_section_run.
 
+(* What C10 asks for (grun_ideal: EVERY refused call is the identity) has this property without any side condition, and
+   the run of the code is that run as long as no decorated clear / overwrite is refused. *)
+Theorem ideal_run_is_section_run : forall ansi w ops st gs f,
+  grun_ideal ansi w st gs f ops = lift (gates_after gs ops) (srun ansi w st f (erase gs ops)).
+Proof. exact grun_ideal_erase. Qed.
+Print Assumptions ideal_run_is_section_run.
+Theorem code_run_is_ideal_run : forall ansi w ops st gs f, leakfree ansi gs ops = true ->
+  grun ansi w st gs f ops = grun_ideal ansi w st gs f ops.
+Proof. exact grun_is_ideal. Qed.
+Print Assumptions code_run_is_ideal_run.
+
 (* two sequences that differ only in what their refused calls were given (texts, flags, line counts) have the same result *)
 Theorem refused_arguments_do_not_matter : forall ansi w st gs f ops ops',
   leakfree ansi gs ops = true -> leakfree ansi gs ops' = true -> kept gs ops = kept gs ops' ->
